@@ -72,11 +72,14 @@ def materialise(case):
     items = []
     seen = set()
     for it in case["items"]:
-        if it[0] == "g":
+        if it[0] in ("g", "gr"):
             if it[1] in seen:
                 continue
             seen.add(it[1])
-            items.append(("g", F.line(POOL[it[1]]), it[1]))
+            ln = F.line(POOL[it[1]])
+            if it[0] == "gr":
+                ln = ln[:-1] + b"\r\n"  # the same well-formed line on a CRLF feed
+            items.append(("g", ln, it[1]))
         else:
             items.append(("b", MALFORMED[it[1] % len(MALFORMED)], None))
     stream = b"".join(x[1] for x in items)
@@ -342,7 +345,7 @@ def run_case(case):
 def worker(args):
     from hypothesis import given, settings, seed, HealthCheck, strategies as st, Phase
     rec = pbt.Recorder(PID)
-    item = st.one_of(st.tuples(st.just("g"), st.integers(0, 59)), st.tuples(st.just("b"), st.integers(0, len(MALFORMED) - 1)))
+    item = st.one_of(st.tuples(st.just("g"), st.integers(0, 59)), st.tuples(st.just("g"), st.integers(0, 59)), st.tuples(st.just("gr"), st.integers(0, 59)), st.tuples(st.just("b"), st.integers(0, len(MALFORMED) - 1)), st.tuples(st.just("b"), st.integers(0, len(MALFORMED) - 1)))
     drop = st.one_of(st.none(), st.none(), st.fixed_dictionaries({"at": st.integers(1, 9999), "retry": st.booleans(), "reset": st.booleans()}))
     case_s = st.fixed_dictionaries({
         "client": st.sampled_from(["1090", "radar", "radar"]),
